@@ -193,9 +193,10 @@ func c10Check(prop, tier string) (*Outcome, error) {
 					continue
 				}
 				if rerr != nil {
-					// accepted by the front end but not documented syntax according to the reader: only
-					// sanity was checked
+					// accepted by the front end although the independent reader of the documented syntax
+					// rejects it: "text that is not a grammar is reported as an error"
 					cnt("accepted-undocumented")
+					report(t, "undocumented-text-accepted", "a syntax error (the independent reader of the documented syntax says: "+rerr.Error()+")", "accepted, with the rules "+ag.Show(tf.Grammar))
 					continue
 				}
 				// ---- imports keep their path and alias all the way into the generated file
